@@ -211,6 +211,8 @@ def run(tier, seed):
     check_cases(chk, cases, profiles, full)
     traces, concrete = record_traces(2500 if full else 300, seed)
     validate_traces(chk, traces, concrete, seed)
+    from harness import algebra
+    algebra.run(chk, ['A6'], full, seed)
     chk.exhaustive = True
     chk.assumptions = ['rectangular tables as C10 states; conflicts: only the soundness clause is property-level, the exact '
                        'adjacent-pair scan is model-level (DRIFT)',
